@@ -60,6 +60,7 @@ type Obligation struct {
 	MergeFuncs []string                  `json:"merge_funcs"`
 	mergeFuncs map[string]bool
 	Guards     []Guard                   `json:"guards"`
+	SingleSection []string               `json:"single_section"`
 	guards     map[string]*Guard
 
 	pkgPath string
